@@ -109,6 +109,10 @@ def file_scenario(sched, sync):
             j, s = st["job"], st["stream"]
             cur[j][s] = 1 if cur[j][s] == -1 else cur[j][s] + 1
             steps.append({"op": "commit", "src": FILE_JOBS[j]["src"], "stream": hx(STREAM_NAME[s]), "off": cur[j][s]})
+        elif st["op"] == "truncate":
+            j = st["job"]
+            cur[j] = {s: (-1 if v == -1 else 0) for s, v in cur[j].items()}
+            steps.append({"op": "truncate", "src": FILE_JOBS[j]["src"]})
         else:
             steps.append({"op": "save"})
             for f in sorted(st["fails"]):
@@ -280,10 +284,10 @@ def analyse(calls, workdir):
                     parts = ln.split()
                     if parts[0] == "init":
                         started, init = True, bytes.fromhex(parts[1])
-                    elif parts[0] in ("commit_begin", "save_begin"):
+                    elif parts[0] in ("commit_begin", "save_begin", "truncate_begin"):
                         window = int(parts[1])
                         ev(op="begin", mark=parts)
-                    elif parts[0] in ("commit_end", "save_end"):
+                    elif parts[0] in ("commit_end", "save_end", "truncate_end"):
                         ev(op="end", mark=parts)
                         window = None
                     else:
@@ -463,6 +467,11 @@ def held_timeline(sc, an):
                 cur[src][name] = off
                 held[src].append(dict(cur[src]))
                 versions.append((copy.deepcopy(held), copy.deepcopy(cur)))
+            elif sc["site"] == "file" and m[0] == "truncate_begin":
+                src = int(m[2])
+                cur[src] = {name: 0 for name in cur[src]}
+                held[src].append(dict(cur[src]))
+                versions.append((copy.deepcopy(held), copy.deepcopy(cur)))
             elif sc["site"] == "generic" and m[0] == "save_begin":
                 cur = dict(sc["values"][int(m[1])])
                 held.append(dict(cur))
@@ -486,7 +495,8 @@ def judge_file(res, held, cur):
     for src, hs in held.items():
         v = seen.get(src, {})
         for name, off in v.items():
-            if off > cur[src].get(name, -1):
+            # beyond everything ever committed for the stream (a truncation lowers the current table)
+            if off > max(h.get(name, -1) for h in hs):
                 return "ahead_of_commits"
         if v not in hs:
             verdict = "vector_never_held"
@@ -521,11 +531,16 @@ def run(ctx):
         {"key": "file/mutant(D_RenameAfterFailedStep)", "module": "OffsetsFile", "cfg": fcfg,
          "overrides": dict(noexp, D_RenameAfterFailedStep="TRUE"), "expect": "violated",
          "violates": ("FailedStepKeepsOld", "DurableBeforeReplace", "AlwaysLoadable"), "workers": 2},
+        {"key": "file/mutant(M_ZeroOffsetsWritten=FALSE)", "module": "OffsetsFile", "cfg": fcfg,
+         "overrides": dict(noexp, M_ZeroOffsetsWritten="FALSE"), "expect": "violated",
+         "violates": ("AlwaysLoadable",), "workers": 2},
         {"key": "generic/faithful", "module": "OffsetsFile", "cfg": "OffsetsFile_quick.cfg", "overrides": gen, "expect": "ok", "workers": 2},
         {"key": "generic/mutant(D_NoFsync)", "module": "OffsetsFile", "cfg": "OffsetsFile_quick.cfg",
          "overrides": dict(gen, D_NoFsync="TRUE", **noexp), "expect": "violated",
          "violates": ("DurableBeforeReplace", "AlwaysLoadable"), "workers": 2},
         {"key": "format/residual", "module": "OffsetsFormat", "cfg": mcfg, "expect": "ok", "workers": 4},
+        {"key": "format/mutant(M_ZeroOffsetsWritten=FALSE)", "module": "OffsetsFormat", "cfg": "OffsetsFormat_mutant.cfg",
+         "expect": "violated", "violates": ("R_RoundTrip",), "workers": 2},
         {"key": "format/faithful(D8)", "module": "OffsetsFormat", "cfg": "OffsetsFormat_quick.cfg",
          "overrides": {"Unconditional": "TRUE"}, "expect": "violated", "violates": ("RoundTrip",), "workers": 2},
     ]
@@ -591,6 +606,63 @@ def run(ctx):
         vlib.log("MODEL-DRIFT: the transcribed parser (OffsetsFormat.tla) predicts a different outcome than the real "
                  "save/load for %d of %d tables" % (rt_drift, len(tables)))
     vlib.log("round trip: %d tables through the real save+load, %d do not come back" % (len(tables), rt_bad))
+
+    # ---------------------------------------------------------------- 3b. offset-0 family: truncateJob + commit + save + fresh load
+    seq_scheds = {}
+    for sch in file_sched:
+        if any(st["op"] == "truncate" for st in sch["steps"]):
+            k = json.dumps([(st["op"], st["job"], st["stream"]) for st in sch["steps"]])
+            seq_scheds.setdefault(k, sch)
+    if len(seq_scheds) < 20:
+        raise vlib.Infra("TLC exported only %d schedules with a truncation" % len(seq_scheds))
+    seq_cases = []
+    for k in sorted(seq_scheds):
+        for sync in (False, True):
+            sc = file_scenario(seq_scheds[k], sync)
+            sc["id"] = len(seq_cases)
+            seq_cases.append(sc)
+    sq_in = os.path.join(ctx.scratch, "c07_seq.ndjson")
+    with open(sq_in, "w") as f:
+        for sc in seq_cases:
+            f.write(json.dumps({"id": sc["id"], "sync": sc["sync"], "jobs": sc["jobs"], "steps": sc["steps"]}) + "\n")
+    sq_out = os.path.join(ctx.scratch, "c07_seq_out.json")
+    rc, txt = ctx.run_bin(bins["file"], "^TestVerifC07Seq$", env={"VERIF_CASES": sq_in, "VERIF_OUT": sq_out, "LOG_LEVEL": "fatal"}, timeout=1500)
+    if rc != 0 or not os.path.exists(sq_out):
+        raise vlib.Infra("sequence harness failed rc=%s:\n%s" % (rc, txt[-3000:]))
+    sq = json.load(open(sq_out))
+    if sq["executed"] != len(seq_cases):
+        raise vlib.Infra("sequence harness executed %d of %d cases" % (sq["executed"], len(seq_cases)))
+    seq_loads = seq_zero = 0
+    for sc, r in zip(seq_cases, sq["results"]):
+        if r.get("panic"):
+            recs.append({"kind": "panic_in_sequence", "panic": r["panic"][:300], "sync_mode": sc["sync"], "scenario": sc})
+            continue
+        # replay the bookkeeping: vectors held by each job after each step
+        cur = {j["src"]: {x["name"]: x["off"] for x in j["streams"]} for j in sc["jobs"]}
+        held = {src: [dict(v)] for src, v in cur.items()}
+        after = []
+        for st in sc["steps"]:
+            if st["op"] == "commit":
+                cur[st["src"]][st["stream"]] = st["off"]
+                held[st["src"]].append(dict(cur[st["src"]]))
+            elif st["op"] == "truncate":
+                cur[st["src"]] = {n: 0 for n in cur[st["src"]]}
+                held[st["src"]].append(dict(cur[st["src"]]))
+            after.append((copy.deepcopy(held), copy.deepcopy(cur)))
+        for ld in r["loads"]:
+            h, c = after[ld["step"]]
+            seq_loads += 1
+            if any(0 in v.values() and any(x > 0 for x in v.values()) for v in c.values()) or any(v and all(x == 0 for x in v.values()) for v in c.values()):
+                seq_zero += 1
+            sub = judge_file(ld["res"], h, c)
+            if sub is not None:
+                got = {l["src"]: {kv["name"]: kv["off"] for kv in l["streams"]} for l in ld["res"].get("table", [])}
+                recs.append({"kind": "sequence_" + sub, "sync_mode": sc["sync"], "at_step": ld["step"], "committed_table": c, "loaded_table": got,
+                             "zero_offset_in_table": any(0 in v.values() for v in c.values()), "scenario": sc})
+    vlib.log("offset-0 family: %d sequences with a truncation (real truncateJob/commit/save), %d fresh loads compared, %d of them with "
+             "a zero offset next to a non-zero one or an all-zero job" % (len(seq_cases), seq_loads, seq_zero))
+    if not seq_zero:
+        raise vlib.Infra("the truncation family produced no table with a zero offset")
 
     # ---------------------------------------------------------------- 4. scenarios under strace (T)
     lim_f, lim_g = (90, 30) if quick else (5000, 2500)
@@ -831,7 +903,7 @@ def run(ctx):
         ctx.drift += 1
         vlib.log("MODEL-DRIFT: D8 (unloadable stream/file names) did not reproduce; OffsetsFormat.tla's D8Class is stale")
 
-    ctx.evaluations = len(tables) + nviews + sum(s["loads"] for s in conc_stats)
+    ctx.evaluations = len(tables) + seq_loads + nviews + sum(s["loads"] for s in conc_stats)
     nt = set()
     for r in done:
         sc = r["sc"]
@@ -844,7 +916,9 @@ def run(ctx):
     # every table and every fault shape is executed; of the schedules that differ only in which job/stream commits
     # where, a seeded sample unless the limit covers them all
     ctx.exhaustive = len(chosen_f) == uniq_f and len(chosen_g) == uniq_g
-    ctx.rule = ("(a) round trip: every job table TLC enumerates from OffsetsFormat.tla (%d; names over {a : space newline - e-acute} "
+    ctx.rule = ("(a0) offset 0: every TLC schedule containing a truncation run in-process through the real truncateJob/commit/save "
+                "and a fresh real load after every save (%d sequences, async and sync mode).  " % len(seq_cases) +
+                "(a) round trip: every job table TLC enumerates from OffsetsFormat.tla (%d; names over {a : space newline - e-acute} "
                 "incl. the empty name, offsets 0/1/2^63-1, ids 1/2^64-1) through the real save and a fresh real load; non-trivial = "
                 "table outside the D8 class with at least one special character in a stream name.  (b) protocol: %d distinct "
                 "schedules (file) / %d (generic) exported by TLC, %d distinct fault shapes; %s executed by the real code under "
@@ -852,7 +926,8 @@ def run(ctx):
                 "non-trivial = distinct (site, mode, injected faults, trace length).  (c) every disk content the crash semantics "
                 "allows after every system call (all byte prefixes) loaded by the real load().  (d) concurrent commits/saves/loads."
                 % (len(tables), uniq_f, uniq_g, shapes_f + shapes_g, "all fault shapes and a seeded sample of %d schedules" % len(scen)))
-    ctx.extra.update({"round_trip_tables": len(tables), "round_trip_failures": rt_bad, "scenarios_followed": len(done),
+    ctx.extra.update({"truncation_sequences": len(seq_cases), "truncation_loads": seq_loads, "truncation_loads_with_zero_offset": seq_zero,
+                      "round_trip_tables": len(tables), "round_trip_failures": rt_bad, "scenarios_followed": len(done),
                       "scenarios_inconclusive": inconclusive, "scenarios_not_applicable": skipped, "strace_runs": strace_runs,
                       "disk_views_checked": nviews, "distinct_disk_contents_loaded": ndisk, "concurrency": conc_stats,
                       "trace_protocol_violations": len(tviol), "trace_drifts": len(tdrift)})
